@@ -8,6 +8,7 @@ import Knx.Text
 import Knx.DptText
 import Knx.Gen.Dpt
 import Knx.Registry
+import Knx.Groups
 
 open Knx.Gen
 
@@ -88,6 +89,15 @@ def runGen (line : String) : String :=
     | ["fg", n] => do let a ← b16 n; pure (hexOfStr (Knx.Addr.formatGroup a))
     | ["fi", n] => do let a ← b16 n; pure (hexOfStr (Knx.Addr.formatIndividual a))
     | "hist" :: ts => runHist ts
+    | ["gout", c, sa, da, h] => do
+      let c ← b8 c; let sa ← b16 sa; let da ← b16 da; let d ← Knx.Text.unhex h
+      pure (" ".intercalate (Knx.Text.ldata (Knx.Grp.build { cmd := c, src := sa, dst := da, data := d })))
+    | "gin" :: ts => do
+      let (m, rest) ← Knx.Text.pCemi ts
+      if !rest.isEmpty then none
+      match Knx.Grp.filter m with
+      | some ev => pure s!"ev {ev.cmd.toNat} {ev.src.toNat} {ev.dst.toNat} {Knx.Text.hex ev.data}"
+      | none => pure "none"
     | op :: args => runDpt op args
     | _ => none
   r.getD "bad-op"
